@@ -45,10 +45,10 @@ func TestVerifReplay(t *testing.T) {
 		return r
 	}
 	lists := map[string][]v1.CompositionRevision{
-		"[rev1]":                     {mkRev(1, true)},
-		"[rev1(current hash) rev2]":  {mkRev(1, true), mkRev(2, false)},
-		"[rev2 rev1(current hash)]":  {mkRev(2, false), mkRev(1, true)},
-		"[rev1 rev2(current hash)]":  {mkRev(1, false), mkRev(2, true)},
+		"[rev1]":                    {mkRev(1, true)},
+		"[rev1(current hash) rev2]": {mkRev(1, true), mkRev(2, false)},
+		"[rev2 rev1(current hash)]": {mkRev(2, false), mkRev(1, true)},
+		"[rev1 rev2(current hash)]": {mkRev(1, false), mkRev(2, true)},
 	}
 	manual, automatic := xpv1.UpdateManual, xpv1.UpdateAutomatic
 	policies := map[string]*xpv1.UpdatePolicy{"unset": nil, "Automatic": &automatic, "Manual": &manual}
